@@ -218,7 +218,7 @@ class Conv:
             if p is None:
                 return None
             if n == 'rmdir' or (n == 'unlinkat' and 'AT_REMOVEDIR' in a[2]):
-                raise vlib.Infra('unmodelled: rmdir inside the scenario tree')
+                return dict(ev='rmdir', a=L(p))
             return dict(ev='unlink', a=L(p))
         if n in ('mkdirat', 'mkdir'):
             p = self.at(a[0], a[1]) if n == 'mkdirat' else self.rel(unhex(a[0]))
@@ -227,8 +227,26 @@ class Conv:
             text = unhex(a[0])
             p = self.at(a[1], a[2]) if n == 'symlinkat' else self.rel(unhex(a[1]))
             return None if p is None else dict(ev='symlink', a=L(p), b=L(text))
-        if n in ('linkat', 'link', 'truncate'):
-            raise vlib.Infra('unmodelled system call ' + n)
+        if n in ('linkat', 'link'):
+            s_, d_ = (self.at(a[0], a[1]), self.at(a[2], a[3])) if n == 'linkat' else (self.rel(unhex(a[0])), self.rel(unhex(a[1])))
+            if s_ is None and d_ is None:
+                return None
+            if s_ is None or d_ is None:
+                raise vlib.Infra('unmodelled: link across the scenario boundary')
+            return dict(ev='link', a=L(s_), b=L(d_))
+        if n == 'truncate':
+            p = self.rel(unhex(a[0]))
+            return None if p is None else dict(ev='trunc', a=L(p), n=int(a[1]))
+        if n == 'ftruncate':
+            return dict(ev='ftrunc', fd=int(a[0]), n=int(a[1])) if int(a[0]) in fds else None
+        if n == 'pwrite64':
+            fd = int(a[0])
+            if fd not in fds:
+                return None
+            data = unhex(a[1])
+            if data is None:
+                raise vlib.Infra('strace: truncated pwrite buffer')
+            return dict(ev='pwrite', fd=fd, data=L(data[:ret]), n=int(a[3]))
         if n in ('fchmodat', 'chmod', 'fchownat', 'chown', 'lchown', 'utimensat', 'utimes'):
             if n in ('fchmodat', 'fchownat', 'utimensat'):
                 if a[1].strip() == 'NULL':
@@ -277,7 +295,7 @@ class Conv:
             if int(a[0]) in fds:
                 raise vlib.Infra('unmodelled: %s on a tree descriptor' % n)
             return None
-        if n in ('pwrite64', 'writev', 'pwritev', 'splice', 'ftruncate', 'fallocate', 'dup', 'dup2', 'dup3'):
+        if n in ('writev', 'pwritev', 'splice', 'fallocate', 'dup', 'dup2', 'dup3'):
             nums = [int(x) for x in a[:3] if re.match(r'^\d+$', x.strip())]
             if any(x in fds for x in nums[:2]):
                 raise vlib.Infra('unmodelled: %s on a tree descriptor' % n)
@@ -456,6 +474,10 @@ def validate(ctx, runs, tag):
         for k, v in r.items():
             rej.setdefault(k, set()).update(v)
     for rid, whys in rej.items():
+        if any('ON DISK' in w for w in whys):
+            # what was found on the real disk is a verdict by itself, whatever the model thinks
+            rej[rid] = set(w for w in whys if 'ON DISK' in w)
+            continue
         for w in whys:
             if w.startswith('MODEL') or w.startswith('BINDING'):
                 lines = dict(runs)[rid]
@@ -526,6 +548,9 @@ def scenarios(ctx):
     for s in S:
         if s['sc']['inv']['stdin']:
             s['sc']['stdin'] = c19.s2b(js)
+    if not q:
+        # the parallel shapes are scheduled differently every time: run each of them three more times
+        S += [dict(s, name=s['name'] + '#%d' % k, sc=dict(s['sc'])) for s in list(S) if not s['seq'] for k in (2, 3, 4)]
     return S
 
 
@@ -549,6 +574,9 @@ def run(ctx):
     cli = vlib.build_cli(ctx)
     quick = ctx.quick()
     vlib.tlc_mc(ctx, 'CliFs', 'CliFs_quick.cfg' if quick else 'CliFs_thorough.cfg', workers=min(8, vlib.JOBS), heap='4g', timeout=3000)
+    if not quick:
+        # three parallel workers over three tasks (fault-free, invariants only)
+        vlib.tlc_mc(ctx, 'CliFs', 'CliFs_w3.cfg', workers=min(8, vlib.JOBS), heap='4g', timeout=3000)
     c19.tick(ctx, 'design model checked')
     ctx.coverage['design_counterexamples'] = dict(
         stale_bak_clobbered_OthersUntouched=design_counterexample(ctx, 'CliFs_bak.cfg', 'OthersUntouched'),
@@ -586,7 +614,7 @@ def run(ctx):
             if (name, o) in seen:
                 continue
             seen.add((name, o))
-            if s['seq'] or o <= (3 if quick else 6):
+            if s['seq'] or o <= (3 if quick else 8):
                 jobs.append((i, ('%s:signal=SIGKILL:when=%d' % (name, o),), 'kill'))
             if name in INJECT_ERR and (s['seq'] or o <= 2) and (not quick or s['name'].startswith(('inplace', 'bundle-onto', 'dir-inplace-v', 'sync-v'))):
                 jobs.append((i, ('%s:error=%s:when=%d' % (name, INJECT_ERR[name], o),), 'fault'))
